@@ -1773,3 +1773,46 @@ package flags
 //@   ensures[C19] r != nil ==> r.Type == ErrDuplicatedFlag
 //@   ensures[C19] r == nil ==> forall(J, 0, iterlen(Group.eachGroup, g), forall(i, 0, len(iterelem(Group.eachGroup, g, J, 0).options), forall(K, 0, iterlen(Group.eachGroup, g), forall(k, 0, len(iterelem(Group.eachGroup, g, K, 0).options), dupOpt(g, J, i).ShortName != 0 && dupOpt(g, J, i).ShortName == dupOpt(g, K, k).ShortName ==> dupOpt(g, J, i) == dupOpt(g, K, k)))))
 //@   ensures[C19] r == nil ==> forall(J, 0, iterlen(Group.eachGroup, g), forall(i, 0, len(iterelem(Group.eachGroup, g, J, 0).options), forall(K, 0, iterlen(Group.eachGroup, g), forall(k, 0, len(iterelem(Group.eachGroup, g, K, 0).options), dupOpt(g, J, i).LongName != "" && dupOpt(g, K, k).LongName != "" && longNameOf(dupOpt(g, J, i)) == longNameOf(dupOpt(g, K, k)) ==> dupOpt(g, J, i) == dupOpt(g, K, k)))))
+
+// ===================================================================
+// C19: the tag attributes of a field become the option's public model
+// ===================================================================
+
+//@ assumed func (x *multiTag) GetMany(key string) (r []string)
+//@   pure
+//@ assumed func (x *multiTag) Parse() (err error)
+//@ assumed func reflect.Type.NumField(t reflect.Type) (n int)
+//@   pure
+//@   ensures n >= 0
+//@ assumed func reflect.Type.Field(t reflect.Type, i int) (f reflect.StructField)
+//@   pure
+//@ assumed func reflect.Value.Field(v reflect.Value, i int) (f reflect.Value)
+//@   pure
+//@ assumed func (option *Option) shortAndLongName() (r string)
+//@   pure
+
+//@ func isStringFalsy(s string) (r bool)
+//@   props C19 C04
+//@   pure
+//@   ensures[C19] r == (s == "" || s == "false" || s == "no" || s == "0")
+//@   assigns nothing
+
+// Every attribute of the field's tag lands in the option it belongs to (C19):
+// names, description, defaults and choices in order, optional value, value
+// name, mask, env key and delimiter, the three marks; the option is bound to
+// this group and to the field's value.  A short name of more than one
+// character and a default on a boolean flag are refused with their typed errors.
+//@ pure func shortOf(s string) rune = ite(utf8.RuneCountInString(s) == 1, fst(utf8.DecodeRuneInString(s)), rune(0))
+//@ func (g *Group) scanStruct(realval reflect.Value, sfield *reflect.StructField, handler scanHandler) (err error)
+//@   props C19 C04
+//@   requires g != nil && handler != nil
+//@   loop 1 invariant 0 <= i
+//@   loop 1 decreases stype.NumField() - i
+//@   at[C19] call append #1: option != nil && option.LongName == mtag.Get("long") && option.ShortName == shortOf(mtag.Get("short")) && option.Description == mtag.Get("description")
+//@   at[C19] call append #1: same(option.Default, mtag.GetMany("default")) && same(option.Choices, mtag.GetMany("choice")) && same(option.OptionalValue, mtag.GetMany("optional-value"))
+//@   at[C19] call append #1: option.ValueName == mtag.Get("value-name") && option.DefaultMask == mtag.Get("default-mask") && option.EnvDefaultKey == mtag.Get("env") && option.EnvDefaultDelim == mtag.Get("env-delim")
+//@   at[C19] call append #1: option.OptionalArgument == !isStringFalsy(mtag.Get("optional")) && option.Required == !isStringFalsy(mtag.Get("required")) && option.Hidden == !isStringFalsy(mtag.Get("hidden"))
+//@   at[C19] call append #1: option.group == g && option.value == realval.Field(i) && utf8.RuneCountInString(mtag.Get("short")) <= 1 && !(option.isBool() && !isnil(option.Default))
+//@   at[C19] call append #1: !(mtag.Get("long") == "" && mtag.Get("short") == "" && mtag.Get("ini-name") == "") && mtag.Get("no-flag") == ""
+//@   at[C19] call newErrorf #1: rc > 1
+//@   at[C19] call newErrorf #2: option.isBool() && !isnil(option.Default)
